@@ -795,6 +795,9 @@ class ParametersDescriptor(BasicDescriptor):
         if super(ParametersDescriptor, self).__set__(instance, value):  # the None handler...kinda hacky
             return
 
+        if isinstance(value, ParametersCollection) and (value._child_tag != self.child_tag or value._name != self.name):
+            # a collection created for another field: keep its entries, not the element name it was created under
+            value = value.get_collection()
         if isinstance(value, ParametersCollection):
             self.data[instance] = value
         else:
